@@ -342,7 +342,7 @@ class LinAI:
             self.m.call(self, st, e)
         return st
 
-    def cond(self, st, cnode, truth):
+    def cond(self, st, cnode, truth, _depth=0):
         """refine with a branch condition"""
         f = self.f
         st = st.copy()
@@ -370,6 +370,16 @@ class LinAI:
                         return None
                     st.facts[key] = t
                     self.m.learned(self, st, key, t)
+                # a bool local that names a test whose operands still have the values they had at its definition carries that test
+                if n["k"] == "DeclRefExpr" and n["ref"].get("dk") == "local" and "bool" in (n["ref"].get("t") or n.get("t") or "") and _depth < 3:
+                    from . import fin
+                    pos_ = f.node_pos(a) or f.node_pos(cnode)
+                    init_ = fin._stable_init(f, n["ref"]["id"], pos_) if pos_ is not None else None
+                    if init_ is not None:
+                        st2 = self.cond(st, init_, t, _depth + 1)
+                        if st2 is None:
+                            return None
+                        st = st2
         if st.infeasible():
             return None
         return st
